@@ -1412,7 +1412,7 @@ def plan_histories(ctx, kind):
     nexh = len(seqs)
     seen = set(seqs)
     rng = np.random.default_rng([ctx.seed, 4, sum(map(ord, kind))])
-    nrand = {'ifg': ctx.pick(500, 140000), 'rich': ctx.pick(40, 4000), 'wf': ctx.pick(200, 24000)}[kind]
+    nrand = {'ifg': ctx.pick(500, 110000), 'rich': ctx.pick(40, 4000), 'wf': ctx.pick(200, 24000)}[kind]
     lo, hi = depth + 1, ctx.pick(7, 14)
     tries = 0
     while len(seqs) < nexh + nrand and tries < 20 * nrand:
